@@ -14,13 +14,16 @@ def make_cfg(scn, stack=None):
     if isinstance(serde, engine.FailingSerde):
         serde = serde.inner
     item_max = 1 << 20
+    refuse = ()
     for n in w.get("nodes", ()):
         item_max = (n.get("opts") or {}).get("item_max", item_max)
+        refuse = tuple(codec.dec(k) for k in (n.get("opts") or {}).get("refuse_set", ())) or refuse
     return model.Cfg(stack=stack or w.get("stack", "client"),
                      key_prefix=codec.dec(ck.get("key_prefix", E(b""))),
                      default_noreply=ck.get("default_noreply", True), serde=serde,
                      encoding=ck.get("encoding", "ascii"),
-                     allow_unicode_keys=ck.get("allow_unicode_keys", False), item_max=item_max)
+                     allow_unicode_keys=ck.get("allow_unicode_keys", False), item_max=item_max,
+                     refuse_set=refuse)
 
 
 class SnapshotHook:
